@@ -290,9 +290,14 @@ def realize(world: World, classes: Any, renderers: Dict[str, Any], via_add: bool
         d = m[h]
         c1 = [real[c] for c in d["col1"]]
         c2 = [real[c] for c in d["col2"]]
-        if len(c1) > 1 and len(d["name"] or "") % 2:
-            c1, c2 = tuple(c1), tuple(c2)   # Collection[Column]: tuples are documented to be fine
-        real[h] = (CS if d.get("subclass") else C).Reference(d["type"], c1[0] if len(c1) == 1 else c1, c2[0] if len(c2) == 1 else c2,
+        # Union[Column, Collection[Column]]: a bare column, a list and a tuple are all documented; equal
+        # references are built in different styles on purpose
+        style = sum(map(ord, h)) % 3
+        if style == 1:
+            c1, c2 = tuple(c1), tuple(c2)
+        a1: Any = c1[0] if (len(c1) == 1 and style == 0) else c1
+        a2: Any = c2[0] if (len(c2) == 1 and style == 0) else c2
+        real[h] = (CS if d.get("subclass") else C).Reference(d["type"], a1, a2,
                               name=d["name"], comment=d["comment"], on_update=d["on_update"],
                               on_delete=d["on_delete"], inline=d["inline"])
     for h in world.handles("group"):
@@ -444,9 +449,9 @@ def real_dump(real: Dict[str, Any], kinds: Dict[str, str]) -> Dict[str, Any]:
         return ["?", type(s).__name__]
 
     def L(x: Any) -> Any:
-        if isinstance(x, list):
+        if isinstance(x, (list, tuple)):   # the statement does not prescribe the sequence type
             return [R(o) for o in x]
-        return ["not-a-list", type(x).__name__]
+        return ["not-a-sequence", type(x).__name__]
 
     out: Dict[str, Any] = {}
     for h, o in real.items():
